@@ -90,7 +90,15 @@ impl XContinuousDistribution {
         match self {
             Self::Beta(i) => i.cdf(x),
             Self::Exponential(i) => i.cdf(x),
-            Self::FisherSnedecor(i) => i.cdf(x),
+            Self::FisherSnedecor(i) => {
+                // the library evaluates d1*x / (d1*x + d2): once that overflows it is inf/inf and its beta function panics;
+                // the limit of the distribution function is 1
+                if (i.freedom_1() * x + i.freedom_2()).is_infinite() {
+                    1.0
+                } else {
+                    i.cdf(x)
+                }
+            }
             Self::Gamma(i) => i.cdf(x),
             Self::LogNormal(i, ..) => i.cdf(x),
             Self::Normal(i) => i.cdf(x),
